@@ -14,6 +14,10 @@ use std::iter::Peekable;
 use std::slice::Iter;
 use std::ops::Index;
 use std::cmp::max;
+use std::cmp::Ordering;
+use std::cmp::{min, Reverse};
+use std::collections::{BTreeMap, BTreeSet, HashMap, HashSet, VecDeque};
+use std::borrow::Cow;
 use std::fmt::{self, Debug, Display};
 verus! {
 
